@@ -5382,7 +5382,8 @@ class PyCdlib:
                 # We specifically do *not* normalize rr_path here, since that
                 # potentially changes the meaning of what the user wanted.
 
-                rr_symlink_name_bytes = rr_symlink_name.encode('utf-8')
+                _check_iso9660_filename(name, self.interchange_level)
+                rr_symlink_name_bytes = self._check_rr_name(rr_symlink_name)
                 rec.new_symlink(self.pvd, name, parent, rr_path.encode('utf-8'),
                                 self.pvd.sequence_number(), self.rock_ridge,
                                 rr_symlink_name_bytes, self.xa, time.time())
